@@ -22,6 +22,7 @@ type c04Case struct {
 	script   []string // per second-phase attempt
 	cancelAt int      // -1 none; k = cancelled before attempt k
 	name     string
+	wire     int // 0: the wire form of each reply is picked by a hash of the case; k+1: form k for every reply
 
 	mu       sync.Mutex
 	xid      string
@@ -86,7 +87,7 @@ func runC04(c *Ctx) {
 		}
 		maxLen := r
 		if r == 0 {
-			maxLen = 3 // unbounded retries: the harness caps by cancelling the context when the script runs out
+			maxLen = 3 // one attempt only: the entries after the first must never be consumed
 		}
 		scripts := c04Scripts(maxLen)
 		if r != 0 {
@@ -107,6 +108,14 @@ func runC04(c *Ctx) {
 					add(&c04Case{retries: r, begin: "ok", cb: cb, script: sc, cancelAt: ca})
 				}
 			}
+		}
+	}
+
+	// every wire form of an acknowledgement and of a refusal, at the first attempt and after a transport failure
+	for form := 0; form < 8; form++ {
+		for _, last := range []string{"ok", "failed"} {
+			add(&c04Case{retries: 2, begin: "ok", cb: "nil", script: []string{last}, cancelAt: -1, wire: form + 1})
+			add(&c04Case{retries: 2, begin: "ok", cb: "nil", script: []string{"transport", last}, cancelAt: -1, wire: form + 1})
 		}
 	}
 
@@ -172,14 +181,55 @@ func runC04(c *Ctx) {
 				k.mu.Unlock()
 				cancel()
 			}
+			// the wire forms of an acknowledgement and of a refusal (which one: a function of the case)
+			form := (idHash(fmt.Sprintf("%s#%d", k.name, idx)) / 3) % 8
+			if k.wire > 0 {
+				form = k.wire - 1
+			}
+			_, isCommit := b.(message.GlobalCommitRequest)
 			switch reply {
 			case "transport":
 				return Action{TransportE: true}
 			case "failed":
-				if _, ok := b.(message.GlobalCommitRequest); ok {
-					return Action{Body: message.GlobalCommitResponse{AbstractGlobalEndResponse: message.AbstractGlobalEndResponse{AbstractTransactionResponse: failHead("refused"), GlobalStatus: message.GlobalStatusCommitFailed}}}
+				if isCommit {
+					head, status := failHead("refused"), message.GlobalStatusCommitFailed
+					switch form {
+					case 1:
+						status = message.GlobalStatusUnKnown
+					case 2:
+						status = message.GlobalStatusBegin
+					case 3:
+						status = message.GlobalStatusFinished
+					case 4:
+						status = message.GlobalStatusRollbacked
+					case 5:
+						// the transaction timed out meanwhile: the request is answered, with what happens instead
+						head, status = okHead(), message.GlobalStatusTimeoutRollbacking
+					case 6:
+						head, status = okHead(), message.GlobalStatusRollbacked
+					}
+					c.Out.Count(fmt.Sprintf("refusal.form%d", form))
+					return Action{Body: message.GlobalCommitResponse{AbstractGlobalEndResponse: message.AbstractGlobalEndResponse{AbstractTransactionResponse: head, GlobalStatus: status}}}
 				}
 				return Action{Body: message.GlobalRollbackResponse{AbstractGlobalEndResponse: message.AbstractGlobalEndResponse{AbstractTransactionResponse: failHead("refused"), GlobalStatus: message.GlobalStatusRollbackFailed}}}
+			}
+			if isCommit && form > 0 {
+				head, status := okHead(), message.GlobalStatusCommitted
+				switch form {
+				case 1:
+					status = message.GlobalStatusAsyncCommitting
+				case 2:
+					status = message.GlobalStatusCommitting
+				case 3:
+					status = message.GlobalStatusCommitRetrying
+				case 4:
+					// the commit is decided although the reply's result code says Failed (a repeated request, say)
+					head = failHead("already committed")
+				case 5:
+					status = message.GlobalStatusFinished
+				}
+				c.Out.Count(fmt.Sprintf("ack.form%d", form))
+				return Action{Body: message.GlobalCommitResponse{AbstractGlobalEndResponse: message.AbstractGlobalEndResponse{AbstractTransactionResponse: head, GlobalStatus: status}}}
 			}
 			return Action{}
 		}
